@@ -136,10 +136,16 @@ def gen_tree(rng, malformed=False):
         names.append(name)
         lines = moltype_lines(rng, name)
         where = rng.choice(['root', 'file', 'file', 'file', 'file', 'cond'])
+        pdir = rng.choice(['', 'mols/', 'mols/deep/'])
+        if where in ('root', 'file') and rng.random() < 0.3:
+            # a file of macro definitions (no section header of its own) included from within the molecule definition
+            k = lines.index('[ bonds ]') if '[ bonds ]' in lines else len(lines)
+            lines[k:k] = [f'#include "par_{name.lower()}.itp"']
+            files[('' if where == 'root' else pdir) + f'par_{name.lower()}.itp'] = [f'#define PAR_{name} 0.3 1000', f'#define HAS_{name}']
         if where == 'root':
             root += lines
         elif where == 'file':
-            p = rng.choice(['', 'mols/', 'mols/deep/']) + f'{name.lower()}.itp'
+            p = pdir + f'{name.lower()}.itp'
             files[p] = lines
             root.append(f'#include "{p}"')
             if rng.random() < 0.2:
